@@ -214,6 +214,8 @@ def read_and_compare(ctx, sc, r, label, path, cst, req, expected, AFMWriter, AFM
             if not same_spec(spec.dump_fm(cur), back):
                 r.oracle_fail(label, req, f"cycle{cyc}:model-differs", "")
                 break
+        for c_, d_ in fmt.exchange_cycles(AFMWriter, AFMReader, sc.path("afm"), cur, back, same_spec):
+            r.oracle_fail(label, req, c_, d_)
 
 
 def run(ctx):
